@@ -16,13 +16,35 @@ Theorem C10_headers_are_the_items :
     map s_path (download root items acts) = map (fun e => rel root (fst e)) items /\
     map s_isdir (download root items acts) = map (fun e => match snd e with NDir => true | _ => false end) items.
 Proof. exact headers_are_the_items. Qed.
-(* every item is an entry of the tree below the folder whose own name has no leading dot (PARTIAL: that every such
-   entry occurs exactly once, in depth-first order, is established by the correspondence, not by a theorem) *)
-Theorem C10_items_are_visible_entries_partial :
+(* the items are EXACTLY the entries below the folder whose own name has no leading dot and whose ancestors (down to
+   the folder) are folders, each ONCE: sound, complete and without repetition; the order is the walk's (a folder
+   before its content, names in byte order) *)
+Theorem C10_items_are_visible_entries :
   forall (fuel : nat) (w : world) (root q : list name) (x : node),
     In (q, x) (items_of fuel w root) ->
     w !! q = Some x /\ firstn (List.length root) q = root /\ dotted (last q []) = false.
 Proof. exact items_are_visible_entries. Qed.
+Theorem C10_every_visible_entry_is_an_item :
+  forall (fuel : nat) (w : world) (root rest : list name) (x : node),
+    rest <> [] -> (List.length rest <= fuel)%nat ->
+    w !! (root ++ rest) = Some x ->
+    (forall k, (0 < k < List.length rest)%nat -> w !! (root ++ firstn k rest) = Some NDir) ->
+    dotted (last (root ++ rest) []) = false ->
+    In (root ++ rest, x) (items_of fuel w root).
+Proof.
+  intros fuel w root rest x Hne Hf Hq Hanc Hv. unfold items_of. apply filter_In. split.
+  - now apply walk_complete.
+  - unfold visible. cbn. now rewrite Hv.
+Qed.
+Theorem C10_no_item_twice :
+  forall (fuel : nat) (w : world) (root : list name), base.NoDup (map fst (items_of fuel w root)).
+Proof.
+  intros fuel w root. unfold items_of. pose proof (walk_nodup fuel w root) as H.
+  induction (walk fuel w root) as [|e l IH]; [constructor|]. cbn [List.filter map] in *.
+  inversion H as [|? ? Hn Hr]; subst. destruct (visible e); cbn [map]; [constructor|]; auto.
+  intros Hin. apply Hn. apply elem_of_list_In in Hin. apply elem_of_list_In. apply in_map_iff in Hin as (y & Hy & Hin).
+  apply filter_In in Hin as [Hin _]. apply in_map_iff. now exists y.
+Qed.
 (* the client's choice per file is honoured: the size prefix counts exactly the bytes that follow; a resumed file
    continues at the offset; a skipped file sends nothing *)
 Theorem C10_action_respected :
@@ -88,7 +110,9 @@ Proof. vm_compute. split; reflexivity. Qed.
 
 Print Assumptions C10_count_matches_headers.
 Print Assumptions C10_headers_are_the_items.
-Print Assumptions C10_items_are_visible_entries_partial.
+Print Assumptions C10_items_are_visible_entries.
+Print Assumptions C10_every_visible_entry_is_an_item.
+Print Assumptions C10_no_item_twice.
 Print Assumptions C10_action_respected.
 Print Assumptions C10_upload_skips_complete.
 Print Assumptions C10_upload_resumes_partial.
